@@ -18,7 +18,7 @@ from traits.api import (Any, DelegatesTo, HasTraits, Instance, Int, PrototypedFr
 push_exception_handler(handler=lambda *a: None, reraise_exceptions=True, main=True)
 
 EXN = ["TraitError", "AttributeError", "DelegationError", "RecursionError"]
-TOK = {0: "x", 1: "y", 2: "a", 3: "b", 4: "r", 10: "p_", 11: "pre_", 12: "q_", 20: "parent", 21: "other"}
+TOK = {0: "x", 1: "y", 2: "a", 3: "b", 4: "r", 5: "_items", 10: "p_", 11: "pre_", 12: "q_", 20: "parent", 21: "other"}
 
 
 BAD = "bad"
